@@ -50,6 +50,62 @@ type StrGen struct {
 	Suite   []SuiteCase
 	Grammar *pegi.Grammar
 	Sys     []string // rendered systematic sentences
+	spans   map[string][]span
+}
+
+type span struct {
+	rule       string
+	begin, end int
+}
+
+// SpliceHosts: valid paths that between them contain every construct of the grammar.
+var SpliceHosts = []string{
+	`$[?(@.a == "x")]`, `$[?(@.a == 'x')].b`, `$[?("x" != @.a)]`, `$['a','b']`, `$["a"]`, `$['a'].b`, `$[1:2:3]`, `$[-1]`, `$[0,1:2,*]`, `$[?(@.a =~ /ab/)]`,
+	`$[?(@.a > 1.5e3 && !@.b || (@.c != null))]`, `$..a[0,1].twice()`, `$.a\.b`, `$[?(@.a[?(@.b == true)])]`, `$[?($.x.count() >= @.a.twice())]`, `$..['a','b'].c`,
+	`$.*[*]..*`, `a.b`, `['a']`, `$[ 'a' , "b" ]`, `$[?( @.a == 1 )]`, `$[ 1 : 2 ]`, `$[?(@['a'] <= $["b"][0])]`, `$[?(@.a == False || @.b == NULL)]`, `$..[?(@.a)]`, `$[*,*]`,
+	`$.a.twice().count()`, `$[?(@.a.count() == 1)]`, `$['\u0041\n\\']`, `$["\"\/"]`, `$[?(@ == 'a\'b')]`, `$[?(@ == "a\"b\\")]`, `$[::2]`, `$[+1:-0:-1]`,
+}
+
+// Splice takes a valid host path, picks one node of its parse tree (by the grammar in
+// /repo/jsonpath.peg) and replaces that node's text by a random derivation of the same
+// rule: exactly one sub-rule instance is near-language noise, everything around it is valid.
+func (sg *StrGen) Splice(r *rand.Rand) string {
+	if sg.Grammar == nil {
+		return soup(r)
+	}
+	var host string
+	if r.Intn(3) == 0 && len(sg.Sys) > 0 {
+		host = sg.Sys[r.Intn(len(sg.Sys))]
+	} else {
+		host = SpliceHosts[r.Intn(len(SpliceHosts))]
+	}
+	if sg.spans == nil {
+		sg.spans = map[string][]span{}
+	}
+	sp, ok := sg.spans[host]
+	if !ok {
+		m := pegi.NewMatcher(sg.Grammar, host)
+		if _, node, matched := m.MatchRule("jsonpath", 0); matched {
+			var walk func(n *pegi.Node)
+			walk = func(n *pegi.Node) {
+				if n.End > n.Begin || n.Rule == "space" {
+					sp = append(sp, span{n.Rule, n.Begin, n.End})
+				}
+				for _, k := range n.Kids {
+					walk(k)
+				}
+			}
+			walk(node)
+		}
+		sg.spans[host] = sp
+	}
+	if len(sp) == 0 {
+		return host
+	}
+	x := sp[r.Intn(len(sp))]
+	runes := []rune(host)
+	repl := sg.Grammar.Derive(r, x.rule, 3+r.Intn(4))
+	return Clip(string(runes[:x.begin]) + repl + string(runes[x.end:]))
 }
 
 // Mutate applies n character-level mutations (delete / insert a token / replace by a token start / duplicate a span / swap).
@@ -137,11 +193,13 @@ func unicodeNoise(r *rand.Rand) string {
 }
 
 // Classes of generated strings (for coverage accounting).
-var StrClasses = []string{"sys", "ast", "ast-spelled", "ast-mutated", "suite", "suite-mutated", "soup", "unicode", "grammar"}
+var StrClasses = []string{"sys", "ast", "ast-spelled", "ast-mutated", "suite", "suite-mutated", "soup", "unicode", "grammar", "splice"}
 
 // Next returns one string and the class it came from. g supplies random ASTs.
 func (sg *StrGen) Next(r *rand.Rand, g *Gen) (string, string) {
-	switch c := r.Intn(20); {
+	switch c := r.Intn(24); {
+	case c >= 20:
+		return sg.Splice(r), "splice"
 	case c < 2 && len(sg.Sys) > 0:
 		return sg.Sys[r.Intn(len(sg.Sys))], "sys"
 	case c < 4:
